@@ -1,6 +1,6 @@
 #!/bin/bash
 # usage: r4_process.sh <Cxx> <a|b>   confirm a round-4 change, file it under /verif/seeded/, run the owning check on a scratch copy
-c=$1; x=$2; sd=/var/tmp/seeds4/$c-$x
+c=$1; x=$2; R=${ROUND:-4}; sd=/var/tmp/seeds$R/$c-$x
 [ -f $sd/patch.diff ] || { echo "$c-$x: no patch"; exit 1; }
 /verif/tools/confirm_r4.sh $c $x > /dev/null 2>&1
 log=$sd/confirm.log
